@@ -63,6 +63,8 @@ type SPCfg struct {
 	HasCert             bool     `json:"hasCert"`
 	CertUse             string   `json:"certUse,omitempty"` // "signing", "" (absent use attr)
 	CertWrap            bool     `json:"certWrap,omitempty"`
+	EncKey              int      `json:"encKey,omitempty"`   // 0 = none; otherwise fixture index of a second KeyDescriptor with use="encryption"
+	EncFirst            bool     `json:"encFirst,omitempty"` // the encryption KeyDescriptor precedes the signing one
 	AuthnRequestsSigned string   `json:"authnRequestsSigned,omitempty"` // "" = attribute absent
 	ACS                 []ACSCfg `json:"acs"`
 	SLO                 []SLOCfg `json:"slo,omitempty"`
